@@ -56,45 +56,53 @@ func lastStepRow(r *run, step int) int {
 // crashPass: every history with minLen..maxLen symbols that ends in an FS-touching call; the crash
 // points of the *last* symbol are enumerated (those of earlier symbols belong to the shorter history).
 func (c *checker) crashPass(name string, base bool, maxLen int, workers int) {
-	var jobs [][]sym
-	for _, h := range allHistories(1, maxLen) {
-		if touchesFS(h[len(h)-1]) {
-			jobs = append(jobs, h)
-		}
-	}
 	t0 := time.Now()
 	rec0, img0 := c.recoveries.Load(), c.images.Load()
-	var cut atomic.Bool
-	ev.Par(len(jobs), workers, func(i int) {
-		if c.r.OutOfTime() {
-			cut.Store(true)
-			return
-		}
-		h := jobs[i]
-		r := c.execute(h, base, -1, 0, false)
-		c.histories.Add(1)
-		n := int64(r.fs.NumOps())
-		c.opsSeen.Add(n - int64(r.rows[firstHistRow(r)-1].opEnd))
-		for {
-			m := c.maxOps.Load()
-			if n <= m || c.maxOps.CompareAndSwap(m, n) {
-				break
+	total, doneLen := 0, 0
+	for L := 1; L <= maxLen; L++ {
+		var jobs [][]sym
+		for _, h := range allHistories(L, L) {
+			if touchesFS(h[len(h)-1]) {
+				jobs = append(jobs, h)
 			}
 		}
-		c.crashCheck(r, lastStepRow(r, len(h)-1), len(r.rows), func(*row) crashfs.Options { return crashfs.Full }, contWanted)
-		if i == len(jobs)/2 || i == len(jobs)-1 {
-			var ops []string
-			for _, o := range r.fs.Ops()[r.rows[firstHistRow(r)-1].opEnd:] {
-				ops = append(ops, o.String())
+		var skipped atomic.Int64
+		ev.Par(len(jobs), workers, func(i int) {
+			if c.r.OutOfTime() {
+				skipped.Add(1)
+				return
 			}
-			c.r.Sample(map[string]any{"pass": name, "history": histString(h), "fs_ops_of_history": ops, "final_model": r.ms[0].content()})
+			h := jobs[i]
+			r := c.execute(h, base, -1, 0, false)
+			c.histories.Add(1)
+			n := int64(r.fs.NumOps())
+			c.opsSeen.Add(n - int64(r.rows[firstHistRow(r)-1].opEnd))
+			for {
+				m := c.maxOps.Load()
+				if n <= m || c.maxOps.CompareAndSwap(m, n) {
+					break
+				}
+			}
+			c.crashCheck(r, lastStepRow(r, len(h)-1), len(r.rows), func(*row) crashfs.Options { return crashfs.Full }, contWanted)
+			if L == maxLen && (i == len(jobs)/2 || i == len(jobs)-1) {
+				var ops []string
+				for _, o := range r.fs.Ops()[r.rows[firstHistRow(r)-1].opEnd:] {
+					ops = append(ops, o.String())
+				}
+				c.r.Sample(map[string]any{"pass": name, "history": histString(h), "fs_ops_of_history": ops, "final_model": r.ms[0].content()})
+			}
+		})
+		total += len(jobs) - int(skipped.Load())
+		if skipped.Load() > 0 || c.r.OutOfTime() {
+			c.r.Incomplete(fmt.Sprintf("%s: time budget hit; histories of length <= %d complete, length %d: %d of %d histories not run (or cut short), longer ones not run; target length %d",
+				name, doneLen, L, skipped.Load(), len(jobs), maxLen))
+			break
 		}
-	})
-	if cut.Load() {
-		c.r.Incomplete(fmt.Sprintf("%s: time budget hit before all %d histories were done", name, len(jobs)))
+		doneLen = L
 	}
-	c.r.Set(name+"_histories", int64(len(jobs)))
-	c.r.Set(name+"_max_len", int64(maxLen))
+	c.r.Set(name+"_histories", int64(total))
+	c.r.Set(name+"_max_len_target", int64(maxLen))
+	c.r.Set(name+"_max_len_complete", int64(doneLen))
 	c.r.Set(name+"_crash_images", c.images.Load()-img0)
 	c.r.Set(name+"_recoveries", c.recoveries.Load()-rec0)
 	c.r.Set(name+"_seconds", time.Since(t0).Seconds())
@@ -103,81 +111,88 @@ func (c *checker) crashPass(name string, base bool, maxLen int, workers int) {
 // faultPass: every history (ending in an FS-touching call) x every FS call of the history failing
 // once with EIO (x partial-write mode for writes); then an epilogue batch + clean restart.
 func (c *checker) faultPass(name string, base bool, maxLen int, workers int) {
-	var jobs [][]sym
-	for _, h := range allHistories(1, maxLen) {
-		if touchesFS(h[len(h)-1]) {
-			jobs = append(jobs, h)
-		}
-	}
 	t0 := time.Now()
 	rec0, img0, fr0 := c.recoveries.Load(), c.images.Load(), c.faultRuns.Load()
-	var cut atomic.Bool
-	ev.Par(len(jobs), workers, func(i int) {
-		if c.r.OutOfTime() {
-			cut.Store(true)
-			return
-		}
-		h := jobs[i]
-		ref := c.execute(h, base, -1, 0, false)
-		if ref.broken {
-			return
-		}
-		f0 := firstHistRow(ref)
-		lo, hi := ref.rows[f0].callStart, ref.rows[len(ref.rows)-1].callEnd
-		for k := lo; k < hi; k++ {
-			modes := []crashfs.FaultMode{crashfs.FailNoEffect}
-			if ref.fs.CallName(k) == "write" {
-				modes = append(modes, crashfs.FailPartial)
-			}
-			for _, mode := range modes {
-				if c.r.OutOfTime() {
-					cut.Store(true)
-					return
-				}
-				r := c.execute(h, base, k, mode, true)
-				c.faultRuns.Add(1)
-				if r.fs.Failed() == "" {
-					// cannot happen: the run is deterministic up to the fault
-					r.violate("harness: injected fault did not fire", nil)
-					continue
-				}
-				c.faultFired.Add(1)
-				c.r.Outcome("fault-in-" + r.fs.Failed())
-				if r.broken {
-					continue
-				}
-				// crash images from the faulted call onward (history rows only)
-				fr := -1
-				for j := range r.rows {
-					if r.faultInside(&r.rows[j]) {
-						fr = j
-						break
-					}
-				}
-				if fr < 0 {
-					continue
-				}
-				end := len(r.rows)
-				for j, w := range r.rows {
-					if w.step == len(h) {
-						end = j
-						break
-					}
-				}
-				c.crashCheck(r, fr, end, func(w *row) crashfs.Options {
-					if w == &r.rows[fr] {
-						return crashfs.Full
-					}
-					return crashfs.Options{Torn: true, MetaLag: true}
-				}, nil)
+	total, doneLen := 0, 0
+	for L := 1; L <= maxLen; L++ {
+		var jobs [][]sym
+		for _, h := range allHistories(L, L) {
+			if touchesFS(h[len(h)-1]) {
+				jobs = append(jobs, h)
 			}
 		}
-	})
-	if cut.Load() {
-		c.r.Incomplete(fmt.Sprintf("%s: time budget hit before all %d histories were done", name, len(jobs)))
+		var cut atomic.Bool
+		ev.Par(len(jobs), workers, func(i int) {
+			if c.r.OutOfTime() {
+				cut.Store(true)
+				return
+			}
+			h := jobs[i]
+			ref := c.execute(h, base, -1, 0, false)
+			if ref.broken {
+				return
+			}
+			f0 := firstHistRow(ref)
+			lo, hi := ref.rows[f0].callStart, ref.rows[len(ref.rows)-1].callEnd
+			for k := lo; k < hi; k++ {
+				modes := []crashfs.FaultMode{crashfs.FailNoEffect}
+				if ref.fs.CallName(k) == "write" {
+					modes = append(modes, crashfs.FailPartial)
+				}
+				for _, mode := range modes {
+					if c.r.OutOfTime() {
+						cut.Store(true)
+						return
+					}
+					r := c.execute(h, base, k, mode, true)
+					c.faultRuns.Add(1)
+					if r.fs.Failed() == "" {
+						// cannot happen: the run is deterministic up to the fault
+						r.violate("harness: injected fault did not fire", nil)
+						continue
+					}
+					c.faultFired.Add(1)
+					c.r.Outcome("fault-in-" + r.fs.Failed())
+					if r.broken {
+						continue
+					}
+					// crash images from the faulted call onward (history rows only)
+					fr := -1
+					for j := range r.rows {
+						if r.faultInside(&r.rows[j]) {
+							fr = j
+							break
+						}
+					}
+					if fr < 0 {
+						continue
+					}
+					end := len(r.rows)
+					for j, w := range r.rows {
+						if w.step == len(h) {
+							end = j
+							break
+						}
+					}
+					c.crashCheck(r, fr, end, func(w *row) crashfs.Options {
+						if w == &r.rows[fr] {
+							return crashfs.Full
+						}
+						return crashfs.Options{Torn: true, MetaLag: true}
+					}, nil)
+				}
+			}
+		})
+		total += len(jobs)
+		if cut.Load() || c.r.OutOfTime() {
+			c.r.Incomplete(fmt.Sprintf("%s: time budget hit; histories of length <= %d complete, length %d (%d histories) partial, longer ones not run; target length %d", name, doneLen, L, len(jobs), maxLen))
+			break
+		}
+		doneLen = L
 	}
-	c.r.Set(name+"_histories", int64(len(jobs)))
-	c.r.Set(name+"_max_len", int64(maxLen))
+	c.r.Set(name+"_histories", int64(total))
+	c.r.Set(name+"_max_len_target", int64(maxLen))
+	c.r.Set(name+"_max_len_complete", int64(doneLen))
 	c.r.Set(name+"_fault_runs", c.faultRuns.Load()-fr0)
 	c.r.Set(name+"_crash_images", c.images.Load()-img0)
 	c.r.Set(name+"_recoveries", c.recoveries.Load()-rec0)
@@ -201,14 +216,16 @@ func TestCheck(t *testing.T) {
 		r0 := c.execute(nil, false, -1, 0, false)
 		c.crashCheck(r0, 0, len(r0.rows), func(*row) crashfs.Options { return crashfs.Full }, contWanted)
 	}
-	c.crashPass("crash", false, crashLen, workers)
-	c.faultPass("fault", false, faultLen, workers)
+	// order: the passes are independent; the largest one (crash, by increasing length) runs last so that a
+	// time cap only ever cuts the longest histories
 	if baseCrashLen > 0 {
 		c.crashPass("base255_crash", true, baseCrashLen, workers)
 	}
 	if baseFaultLen > 0 {
 		c.faultPass("base255_fault", true, baseFaultLen, workers)
 	}
+	c.faultPass("fault", false, faultLen, workers)
+	c.crashPass("crash", false, crashLen, workers)
 
 	rec := c.recoveries.Load()
 	r.Set("evaluations", rec+c.faultRuns.Load()+c.histories.Load())
